@@ -115,7 +115,7 @@ func TestC16_Literals(t *testing.T) {
 		ch := gen.Chooser{T: t}
 		kind := rapid.IntRange(0, 3).Draw(t, "kind")
 		c.Case()
-		var text, label string
+		var text, label, keyOf string
 		var doc jv.Val = jv.VNull()
 		var want jv.Val
 		nontrivial := false
@@ -143,6 +143,7 @@ func TestC16_Literals(t *testing.T) {
 				want = jv.VNull()
 			}
 			text = ast.QuoteIdent(s, ch)
+			keyOf = s
 			label = "quoted-identifier"
 			nontrivial = needsEscape(s)
 		default: // arbitrary JSON value
@@ -151,6 +152,37 @@ func TestC16_Literals(t *testing.T) {
 			want = v
 			label = "json-value"
 			nontrivial = jsonNonTrivial(v)
+		}
+		// the literal in different syntactic positions (each may be parsed by
+		// different code): alone, in a multi-select, as the value or the key of
+		// a hash, after a pipe or a dot, in parentheses, as an argument,
+		// compared with itself, surrounded by whitespace
+		switch place := rapid.IntRange(0, 13).Draw(t, "placement"); {
+		case place == 5:
+			text, want, label = "["+text+"]", jv.VArr([]jv.Val{want}), label+"/list"
+		case place == 6:
+			text, label = "{k: "+text+"}.k", label+"/hash-value"
+		case place == 7:
+			text, label = "@ | "+text, label+"/after-pipe"
+		case place == 8:
+			text, label = "("+text+")", label+"/paren"
+		case place == 9:
+			text, label = "not_null("+text+", `0`)", label+"/argument"
+			if want.K == jv.Null {
+				want = jv.VInt(0)
+			}
+		case place == 10:
+			text, want, label = text+" == "+text, jv.VBool(true), label+"/compared"
+		case place == 11:
+			text, label = "\r\n\t "+text+" \t\r\n", label+"/whitespace"
+		case place == 12 && kind == 2:
+			text, label = "@."+text, label+"/after-dot"
+		case place == 13 && kind == 2 && keyOf != "other":
+			// a quoted identifier as the key of a multi-select hash
+			key := text
+			text, label = "{"+key+": `7`, other: `8`}", label+"/hash-key"
+			want = jv.VObj([]jv.Member{{K: "other", V: jv.VInt(8)}, {K: keyOf, V: jv.VInt(7)}})
+			doc = jv.VObj(nil)
 		}
 		if !utf8.ValidString(text) {
 			t.Fatalf("harness: generated invalid UTF-8")
